@@ -73,7 +73,10 @@ func startRoamRelay(proto, batch string, mtu int) (*roamRelay, error) {
 	default:
 		return nil, fmt.Errorf("roam: server protocol %q", proto)
 	}
-	cfg := service.Config{Servers: []service.ServerConfig{sc}}
+	// the outgoing direct client gets a path MTU that never limits the uplink of this scenario (the default
+	// client has MTU 1500 and rightly refuses the large datagrams the MTU-9000 ladders need)
+	cc := service.ClientConfig{Name: "direct", Protocol: "direct", EnableUDP: true, MTU: 65535}
+	cfg := service.Config{Servers: []service.ServerConfig{sc}, Clients: []service.ClientConfig{cc}}
 	core, logs := observer.New(zapcore.InfoLevel)
 	mgr, err := cfg.Manager(zap.New(core))
 	if err != nil {
@@ -218,6 +221,9 @@ func runRoam(s *script, c Case) {
 			if err != nil {
 				return nil, err
 			}
+			if ps < 0 || pl < 0 || ps+pl > len(b) {
+				return nil, fmt.Errorf("packet [%d,%d) outside the %d-byte buffer sized by the client's declared headroom", ps, ps+pl, len(b))
+			}
 			return b[ps : ps+pl], nil
 		}
 		unpack := func(pkt []byte) ([]byte, error) {
@@ -293,7 +299,8 @@ func runRoam(s *script, c Case) {
 			hello := roamPayload(r, 40)
 			sent[string(hello)] = true
 			if err := e.send(hello); err != nil {
-				panic(err)
+				s.fail(key+":client-pack-failed", fmt.Sprintf("step %d: the harness client could not pack/send a 40-byte datagram: %v", step, err))
+				return
 			}
 			for {
 				_, p, ok, err := e.recv(700 * time.Millisecond)
@@ -323,10 +330,12 @@ func runRoam(s *script, c Case) {
 			delivered, done := false, false
 			for try := 0; try < 3 && !done; try++ {
 				if err := e.send(want); err != nil {
-					panic(err)
+					s.fail(key+":client-pack-failed", fmt.Sprintf("step %d: the harness client could not pack/send %d bytes: %v", step, len(want), err))
+					return
 				}
 				if err := e.send(marker); err != nil {
-					panic(err)
+					s.fail(key+":client-pack-failed", fmt.Sprintf("step %d: the harness client could not pack/send the marker: %v", step, err))
+					return
 				}
 				for {
 					n, p, ok, err := e.recv(900 * time.Millisecond)
